@@ -5,6 +5,7 @@ import Hl7.Model.Mllp
 import Hl7.Model.Validate
 import Hl7.Model.Heap
 import Hl7.Model.ProfileMsg
+import Hl7.Model.Cascade
 import Hl7.Model.WF
 import Hl7.Gen.Known
 import Hl7.Gen.All
@@ -234,6 +235,16 @@ def handle (line : String) : String :=
           | .ok errs => "ok " ++ "|".intercalate (errs.map (·.show))
           | .error e => "valexc " ++ e.show
         enc ++ " # " ++ val
+  | ["CASC", ec, nf, hx] =>
+    -- the cascade of C01 on a segment body: canonical?  enc (parse body)  leaves with their positional paths
+    match parseEC ec with
+    | some ec =>
+      let ls : List Casc.Lvl := [.pos ec.field nf.toNat!, .rep ec.rep, .pos ec.comp 64, .pos ec.sub 64]
+      let body := unhex hx.toList
+      let t := Casc.parse ls body
+      (if Casc.canonB ls body then "canon " else "noncanon ") ++ tohex (Casc.enc ls t) ++ " " ++
+        ";".intercalate ((Casc.paths ls t).map (fun p => ".".intercalate (p.1.map toString) ++ "=" ++ tohex p.2))
+    | none => "bad-ec"
   | ["VALS", ver, lvl, ec, hx] =>
     match tablesFor ver, parseEC ec with
     | some T, some ec =>
